@@ -513,7 +513,7 @@ def expected(prog: Program, entry: str, data: dict, sem: Sem | None = None,
 # how names are quoted, whether endblock repeats the name, whitespace-control markers
 # on the block tags (only when wc: the program's texts carry no edge whitespace) and the
 # {% liquid %} line form.
-_STYLE: tuple[int, bool] | None = None
+_STYLE: tuple | None = None  # (seed, wc[, bare extends names])
 _KEYWORDS = {"required", "if", "true", "false", "nil", "null", "and", "or", "not", "in",
              "contains", "with", "for", "as", "else", "blank", "empty", "reversed", "limit",
              "offset", "cols"}
@@ -540,7 +540,7 @@ def spell_name(name: str, h: int) -> str:
 
 
 def _emit_block_styled(it: list) -> str:
-    seed, wc = _STYLE  # type: ignore[misc]
+    seed, wc = _STYLE[0], _STYLE[1]  # type: ignore[index]
     h = _h(seed, it[1], bool(it[2]), it[4], len(it[3]))
     name = spell_name(it[1], h)
     end = "" if it[4] is None else " " + spell_name(it[4], h // 7)
@@ -638,6 +638,10 @@ def emit_items(items: list) -> str:
             kw = "".join(f", {a}: {b}" for a, b in it[3].items())
             tgt = it[2][1:] if it[2].startswith("@") else "'%s'" % it[2]
             parts.append("{%% %s %s%s %%}" % (it[1], tgt, kw))
+        elif (k == "x" and _STYLE is not None and len(_STYLE) > 2 and _STYLE[2]
+              and _h(_STYLE[0], it[1], "bare") % 3 and spell_name(it[1], 2) == it[1]):
+            # a bare word IS the template's name, whatever variables are called
+            parts.append("{%% extends %s %%}" % it[1])
         elif k == "x" and _STYLE is not None and _h(_STYLE[0], it[1]) % 2:
             parts.append('{%% extends "%s" %%}' % it[1])
         elif k == "x":
